@@ -14,10 +14,47 @@ from . import C12
 from .common import show
 
 
+_BUILDS = {}
+
+
+def ok_reachable(prog, rf, env):
+    """three-valued: is some construction of the reader's owner type (in the reader itself or the same-module functions it
+    reaches) reachable under env?  False only when every construction is refuted by a decision that evaluates definitely."""
+    owner = rf.owner
+    if not owner:
+        return None
+    key = rf.id
+    if key not in _BUILDS:
+        builds = []
+        for g in [rf] + [x for x in C.reach_from(prog, [rf.id]) if x.id != rf.id and x.id.split("::")[0] == rf.id.split("::")[0]]:
+            sg = None
+            for b in g.blocks:
+                if b.cleanup:
+                    continue
+                for st in b.stmts:
+                    if st[0] == "=" and st[2][0] == "agg" and isinstance(st[2][1], (list, tuple)) and st[2][1][0] == "adt" and st[2][1][1] == owner:
+                        sg = sg or sym.Sym(prog, g)
+                        builds.append((g, C.path_pred(sg, b.idx)))
+        _BUILDS[key] = builds
+    builds = _BUILDS[key]
+    own = [pp for g, pp in builds if g.id == rf.id or True]
+    if not own:
+        return None
+    out = False
+    for pp in own:
+        r = pp(env)
+        if r is True:
+            return True
+        if r is None:
+            out = None
+    return out
+
+
 def run(prog, ctx):
     res = Result("C11")
     total = 0
     decided = 0
+    n_kk = [0]
     for fam in sorted(specfmt.FAMILIES):
         if ctx.get("families") and fam not in ctx["families"]:
             continue
@@ -64,6 +101,17 @@ def run(prog, ctx):
                                 "%s: position %d carries `%s` in serialize() but deserialize() stores it as `%s` (two fields of equal width are swapped on one side)" % (
                                     fam, swapped[0], swapped[1], swapped[2]), rf.id)
                     continue
+                # C11.K the reader, having consumed the image, must also *return* it: some construction of the sketch type in the
+                # reader must be reachable under the values it has just read (a final validation that refutes the writer's own
+                # image -- e.g. a bit count the writer can legitimately produce -- loses the sketch)
+                kv = ok_reachable(prog, rf, dict(proto.LAST_ENV))
+                n_kk[0] += 1
+                if kv is False:
+                    decided += 1
+                    res.violate("C11.K", "C11.K|%s|%s" % (fam, ",".join("%s=%s" % kv_ for kv_ in sorted(label.items()))),
+                                "%s: deserialize() reads the whole image serialize() writes in state %s and then rejects it: no construction of the "
+                                "sketch is reachable under the values read" % (fam, label), rf.id)
+                    continue
                 res.discharged += 1
                 decided += 1
                 if total <= 3:
@@ -75,6 +123,48 @@ def run(prog, ctx):
                 decided += 1
                 res.violate("C11.L", "C11.L|%s|%s" % (fam, ",".join("%s=%s" % kv for kv in sorted(label.items()))),
                             "%s: what serialize() writes in state %s is not what deserialize() reads: %s; written: %s" % (fam, label, detail, [k for k, v in stream]), rf.id)
+    # ---------------- C11.W CpcWrapper::new reads a prefix of the CPC image: in every state, each token the full reader lands in
+    # a field the wrapper also keeps (by landing name) must be consumed by the wrapper at the same position and landed in the same
+    # field; the wrapper may stop early only where nothing it keeps follows
+    n_w = 0
+    if not ctx.get("families") or "cpc" in ctx["families"]:
+        wf = C.pub_fn(prog, *specfmt.FAMILIES["cpc"]["writer"])
+        rf = C.pub_fn(prog, *specfmt.FAMILIES["cpc"]["reader"])
+        xf = C.pub_fn(prog, "cpc::wrapper::CpcWrapper", "new")
+        if wf is not None and rf is not None and xf is not None:
+            wsites, rsites, xsites = proto.model(prog, wf, "w"), proto.model(prog, rf, "r"), proto.model(prog, xf, "r")
+            keeps = set(x.extra for x in xsites if x.extra)
+            keys = C12.leaf_keys_of(wsites)
+            for st in specfmt.FAMILIES["cpc"]["states"]():
+                st = dict(st)
+                for k, v in C12.LABELS.items():
+                    st.setdefault(k, v)
+                env = specfmt.state_env("cpc", st, keys)
+                env["@prog"] = prog
+                toks = proto.concrete_tokens(wsites, env)
+                label = {k: v for k, v in st.items() if k not in C12.LABELS}
+                if any(k.startswith("?") for k, v, s_ in toks):
+                    continue
+                stream = [(k, v) for k, v, s_ in C12.collapse(toks)]
+                v1, _d1 = proto.reader_accepts(rsites, stream, {"@prog": prog})
+                full = [(i, r.extra) for i, r in proto.ALIGN]
+                if v1 is not True:
+                    continue
+                v2, d2 = proto.reader_accepts(xsites, stream, {"@prog": prog})
+                wrap = dict((i, r.extra) for i, r in proto.ALIGN)
+                n_w += 1
+                if v2 is None:
+                    res.tri(None, "C11.W", "C11.W|%s" % label, "wrapper model undecided: %s" % d2, xf.id)
+                    continue
+                if v2 is False and "stops after" not in d2:
+                    res.tri(False, "C11.W", "C11.W|mismatch|%s" % ",".join("%s=%s" % kv for kv in sorted(label.items())),
+                            "CpcWrapper::new does not follow the image CpcSketch::serialize writes in state %s: %s" % (label, d2), xf.id)
+                    continue
+                missing = [(i, nm) for i, nm in full if nm in keeps and wrap.get(i) != nm]
+                res.tri(not missing, "C11.W", "C11.W|field|%s" % ",".join("%s=%s" % kv for kv in sorted(label.items())),
+                        "in state %s CpcSketch::deserialize reads %s but CpcWrapper::new does not (it reads %s there): the wrapper keeps its default and "
+                        "disagrees with the full sketch" % (label, ["`%s` at position %d" % (nm, i) for i, nm in missing], [wrap.get(i) for i, nm in missing]), xf.id)
+    res.rule("C11.W", n_w, 6, "CPC states read by the wrapper and by the full reader")
     # ---------------- C11.M a writer that takes `&mut self` (t-digest folds its buffer first) must finish changing the sketch
     # before it emits the first byte: a value written earlier would otherwise describe a state the sketch no longer has
     n_m = 0
@@ -131,6 +221,7 @@ def run(prog, ctx):
     res.rule("C11.A", n_a, 50, "in-crate calls with two or more arguments on the codec paths (crossed-argument lint)")
     if "undecided_reasons" in res.extra:
         res.extra["undecided_reasons"] = sorted(res.extra["undecided_reasons"])[:12]
+    res.rule("C11.K", n_kk[0], 40, "accepted images whose construction must stay reachable")
     res.rule("C11.L", total, 50, "abstract states x families round-tripped through the writer and reader models")
     res.rule("C11.decided", decided, 45, "states decided")
     res.functions_analysed = sum(v["write_sites"] + v["read_sites"] for v in res.extra["families"].values())
